@@ -57,11 +57,12 @@ class WithMappingItemMethod(AttrMethodDescriptor):
     ) -> Any:
         if not _if:
             return self
+        mutator = attr_spec.get_collection_mutator(self, inplace=_inplace)
         return mutate_attr(
             obj=self,
             attr=attr_spec.name,
             value=(
-                attr_spec.get_collection_mutator(self, inplace=_inplace)
+                mutator
                 .add_item(
                     _key,
                     _value,
@@ -71,6 +72,7 @@ class WithMappingItemMethod(AttrMethodDescriptor):
             ),
             inplace=_inplace,
             type_check=False,
+            on_error=mutator.restore,
         )
 
     def build_method(self) -> Callable:
@@ -149,11 +151,12 @@ class UpdateMappingItemMethod(AttrMethodDescriptor):
     ) -> Any:
         if not _if:
             return self
+        mutator = attr_spec.get_collection_mutator(self, inplace=_inplace)
         return mutate_attr(
             obj=self,
             attr=attr_spec.name,
             value=(
-                attr_spec.get_collection_mutator(self, inplace=_inplace)
+                mutator
                 .add_item(
                     key=_key,
                     value=_new_item,
@@ -165,6 +168,7 @@ class UpdateMappingItemMethod(AttrMethodDescriptor):
             ),
             inplace=_inplace,
             type_check=False,
+            on_error=mutator.restore,
         )
 
     def build_method(self) -> Callable:
@@ -245,11 +249,12 @@ class TransformMappingItemMethod(AttrMethodDescriptor):
     ) -> Any:
         if not _if:
             return self
+        mutator = attr_spec.get_collection_mutator(self, inplace=_inplace)
         return mutate_attr(
             obj=self,
             attr=attr_spec.name,
             value=(
-                attr_spec.get_collection_mutator(self, inplace=_inplace)
+                mutator
                 .transform_item(
                     key=_key,
                     transform=_transform,
@@ -259,6 +264,7 @@ class TransformMappingItemMethod(AttrMethodDescriptor):
             ),
             inplace=_inplace,
             type_check=False,
+            on_error=mutator.restore,
         )
 
     def build_method(self) -> Callable:
@@ -331,16 +337,18 @@ class WithoutMappingItemMethod(AttrMethodDescriptor):
     ) -> Any:
         if not _if:
             return self
+        mutator = attr_spec.get_collection_mutator(self, inplace=_inplace)
         return mutate_attr(
             obj=self,
             attr=attr_spec.name,
             value=(
-                attr_spec.get_collection_mutator(self, inplace=_inplace)
+                mutator
                 .remove_item(key=_key)
                 .collection
             ),
             inplace=_inplace,
             type_check=False,
+            on_error=mutator.restore,
         )
 
     def build_method(self) -> Callable:
